@@ -111,6 +111,9 @@ def doc_from_spec(spec):
     nrec = spec['nrec']
     miss = spec.get('missing', [-9999] * n)
     vars_ = [('V%d_%s' % (i, 'ppbv'), 'ppbv', 1, miss[i]) for i in range(n)]
+    if spec.get('dashname'):
+        # instrument names carry characters that are not identifier characters
+        vars_[0] = ('NO2-LIF/%s' % vars_[0][0],) + vars_[0][1:]
     if spec.get('dupname') and n >= 2:
         # merge files do repeat a column name now and then
         vars_[-1] = (vars_[0][0],) + vars_[-1][1:]
